@@ -176,7 +176,7 @@ def loop_case(nsteps=3, d=2):
       ctx.require('state_untouched_when_stopping', ctx.all_eq(out['M'], M, tol=0.0))
       return
     ctx.require('line_search_not_skipped', ctx.not_(small))
-    ctx.require('every_step_size_tried', ctx.cond(s.loss_calls == nsteps))
+    ctx.require('line_search_evaluates_candidates', ctx.cond(1 <= s.loss_calls <= nsteps))
     better = [ctx.lt(l, s_best) for l in s.losses]
     ctx.require('stops_iff_no_step_improves', ctx.iff(ctx.cond(stopped), ctx.not_(ctx.or_(*better))))
     # the loss carried forward is the smallest seen and never larger than before (monotone descent)
@@ -187,7 +187,7 @@ def loop_case(nsteps=3, d=2):
       # the accepted iterate is one of the candidates, namely one whose loss is the carried-forward best
       Mn = out['M']
       ctx.require('accepted_iterate_attains_best_loss',
-                  ctx.or_(*[ctx.and_(ctx.eq(s.losses[k], new_best, tol=0.0), ctx.cond(Mn is s.metrics[k])) for k in range(nsteps)]))
+                  ctx.or_(*[ctx.and_(ctx.eq(s.losses[k], new_best, tol=0.0), ctx.cond(Mn is s.metrics[k])) for k in range(len(s.losses))]))
     else:
       ctx.require('state_untouched_when_stopping', ctx.and_(ctx.all_eq(out['M'], M, tol=0.0), ctx.eq(new_best, s_best, tol=0.0)))
   return fn
